@@ -71,6 +71,10 @@ def rich_tables() -> List[Table]:
     return [Table("DS_1", ids, me, rows), t2, tdt, tp, tq]
 
 
+#: numeric-only DS_2 for programs that do arithmetic on the whole dataset
+NUM = Table("DS_2", [("Id_1", "Integer")], [("Me_1", "Number")], [dict(Id_1=1, Me_1=3.0), dict(Id_1=2, Me_1=N), dict(Id_1=9, Me_1=0.25)])
+
+
 def rich_programs() -> Iterator[Prog]:
     T = {t.name: t for t in rich_tables()}
     one = [T["DS_1"]]
@@ -87,14 +91,14 @@ def rich_programs() -> Iterator[Prog]:
                                    ("R2", ("clause", "aggr", D("DS_1"), ([("n", "count", None), ("mx", "max", "Me_2")], "group by", ["Id_2"], None)), True)], one, {}, "vtl"
     yield "types", "join", [("R", ("join", "left_join", [(("clause", "keep", D("DS_1"), ["Me_2", "Me_3"]), None), (D("DS_2"), None)], ["Id_1"], []), True)], [T["DS_1"], T["DS_2"]], {}, "vtl"
     yield "types", "date with time part", [("R", D("DS_t"), True), ("R2", ("clause", "filter", D("DS_t"), ("bin", ">", cm("Id_1"), C(1))), True)], [T["DS_t"]], {}, "vtl"
-    yield "types", "only temporary results", [("T1", ("bin", "*", D("DS_2"), C(2)), False), ("T2", ("bin", "+", D("T1"), C(1)), False)], [T["DS_2"]], {}, "vtl"
+    yield "types", "only temporary results", [("T1", ("bin", "*", D("DS_2"), C(2)), False), ("T2", ("bin", "+", D("T1"), C(1)), False)], [NUM], {}, "vtl"
     for rep in ("vtl", "sdmx_reporting", "natural"):
         yield "time-period", f"time periods, representation {rep}", [("R", D("DS_1"), True), ("R2", D("DS_q"), True)], [T["DS_1"], T["DS_q"]], {}, rep
     for rep in ("vtl", "sdmx_reporting", "sdmx_gregorian", "natural"):
         yield "time-period", f"A/M/D periods, representation {rep}", [("R", D("DS_p"), True)], [T["DS_p"]], {}, rep
     # result names that stress the file-name construction: dots are legal in VTL identifiers ([A-Za-z][A-Za-z0-9_.]*),
     # SDMX-style names carry a version such as (1.0); two results differing only after the last dot must not share a file
-    two = [T["DS_2"]]
+    two = [NUM]
     yield "result-names", "two results differing only after the last dot", \
         [("DS.a", ("bin", "+", D("DS_2"), C(1)), True), ("DS.b", ("bin", "*", D("DS_2"), C(2)), True), ("DS_r", ("bin", "-", D("DS_2"), C(1)), True)], two, {}, "vtl"
     yield "result-names", "dotted names, one of them temporary", \
@@ -107,8 +111,8 @@ def rich_programs() -> Iterator[Prog]:
     yield "scalars", "scalar results only", [("x", ("bin", "+", C(1), C(2)), True), ("y", ("bin", "||", C("a,b"), C('"c"')), True),
                                              ("z", C(N), True), ("w", ("bin", "*", C(1.5), C(2)), False), ("b", ("bin", "and", C(True), C(False)), True)], [T["DS_2"]], {}, "vtl"
     yield "scalars", "scalars and datasets", [("R", ("bin", "*", D("DS_2"), ("sc", "sc_n")), True), ("x", ("bin", "+", ("sc", "sc_i"), C(10)), True),
-                                              ("s", ("bin", "||", ("sc", "sc_s"), C("!")), True), ("t", ("bin", "/", ("sc", "sc_n"), C(3)), False)], [T["DS_2"]], sc, "vtl"
-    yield "scalars", "temporary scalar, persistent dataset", [("k", ("bin", "+", C(1), C(1)), False), ("R", ("bin", "+", D("DS_2"), C(1)), True)], [T["DS_2"]], {}, "vtl"
+                                              ("s", ("bin", "||", ("sc", "sc_s"), C("!")), True), ("t", ("bin", "/", ("sc", "sc_n"), C(3)), False)], [NUM], sc, "vtl"
+    yield "scalars", "temporary scalar, persistent dataset", [("k", ("bin", "+", C(1), C(1)), False), ("R", ("bin", "+", D("DS_2"), C(1)), True)], [NUM], {}, "vtl"
 
 
 def family_programs(rng: random.Random, per_family: int) -> Iterator[Prog]:
@@ -257,6 +261,8 @@ def job(prog: Prog) -> List[Tuple[str, str]]:
     # return_only_persistent only matters when some statement is not persistent
     for rop in ((True, False) if any(not pers for _n, _t, pers in stmts) else (False,)):
         km, mem = engine(stmts, tables, scalars, rop, rep, None, "csv")
+        if km == "error":
+            problems.append(("E", f"[return_only_persistent={rop}] the in-memory run raises {mem}"))   # vacuity guard
         for fmt in ("csv", "parquet"):
             d = tempfile.mkdtemp(prefix="c14_out_")
             try:
@@ -356,6 +362,13 @@ def run(chk: Check) -> None:
                         "return_only_persistent settings for the programs with a non-persistent statement)", bounded=True)
             ob.backend = "bounded-real-engine-files-read-back"
             bad = [(p, d) for p, r in mine for k, d in r if k == key]
+            not_run = [(p, d) for p, r in mine for k, d in r if k == "E"]
+            compared = len(mine) - len({id(p) for p, _d in not_run})
+            if not bad and (compared == 0 or (not_run and not cls.startswith("family-"))):
+                # vacuity guard: a hand-written program that does not even run in memory compares nothing
+                p, d = not_run[0]
+                ob.status, ob.detail = UNDECIDED, f"[{p[1]}] not compared: {d}"
+                continue
             if bad:
                 p, d = bad[0]
                 text = "; ".join(f"{n} {'<-' if pers else ':='} {show_ir(t)}" for n, t, pers in p[2])
@@ -365,7 +378,8 @@ def run(chk: Check) -> None:
                 ob.replayed, ob.replay_detail = True, "observed on the real engine (extracted API.run, real DuckDB, files read back): " + d
                 ob.finding_key = f"{cls}::{key}::{p[1]}"
             else:
-                ob.status, ob.detail = BOUNDED_OK, f"{len(mine)} programs"
+                ob.status, ob.detail = BOUNDED_OK, f"{compared} programs compared ({len(mine) - compared} raise the same VTL error in " \
+                                                   "memory and with folder)"
     chk.under_contract(RUN, "bounded")
     chk.extra["bounded"] = {"programs": len(progs), "engine_runs": n_runs, "classes": classes,
                             "extraction_drops": P.EXTRACTION_DROPS}
